@@ -44,7 +44,8 @@ def unit(M):
 # ------------------------------------------------------------------------------------------------ programs
 def gen_program(rng, M, style):
     """style: 'unit' (scale 1, no offsets: circuit_spectrum), 'int' (integer scales), 'half' (half-integer scales),
-    'periodic' (2pi-periodic in every input: integer scales, gates with integer frequencies), 'mix' (a gate fed by both inputs)"""
+    'periodic' (2pi-periodic in every input: integer scales, gates with integer frequencies), 'mix' (a gate fed by both inputs),
+    'gap' (two non-commuting rotations with different scales: difference frequencies), 'constfirst' (a fixed-angle rotation first)"""
     N = 1 << M
     m = 1 if style == "half" else rng.choice([1, 2, 2])
     if style == "mix":
@@ -57,9 +58,26 @@ def gen_program(rng, M, style):
     ops = devsim.random_circuit(rng, n, M, rng.randint(1, 3), ctx)
     used = [Fraction(0)] * m
     n_enc = rng.randint(2, 5)
-    for _ in range(n_enc):
+    forced = []
+    if style == "gap":            # two non-commuting rotations whose scales differ: the difference frequency |c1 - c2| must be reported too
+        cs = rng.choice([(Fraction(1), Fraction(3)), (Fraction(2), Fraction(3)), (Fraction(1, 2), Fraction(3, 2)), (Fraction(3), Fraction(-1))])
+        m, step = 1, [2 if cs[0].denominator == 2 else 1]
+        used = [Fraction(0)]
+        forced = [(rng.choice(["RX", "RY"]), cs[0]), ("RZ", cs[1])]
+        n_enc = 2
+    if style == "constfirst":     # a fixed-angle rotation in front of encoding gates with different spectra
+        m, step, n = 1, [1], max(n, 2)
+        used = [Fraction(0)]
+        ctx = ["g1", "g2"]
+        ops = [rec("Hadamard", [1]), rec("Hadamard", [2]), rec(rng.choice(["RX", "RY", "RZ"]), [rng.randint(1, n)], [rng.randrange(1, N)])]
+        forced = [(rng.choice(ENC1[:3]), Fraction(1)), (rng.choice(["CRX", "CRY", "CRZ"]), Fraction(1))]
+        rng.shuffle(forced)
+        n_enc = 2
+    for e_i in range(n_enc):
         i = rng.randrange(m)
-        if style == "unit":
+        if forced:
+            c = forced[e_i][1]
+        elif style == "unit":
             c = Fraction(1)
         elif style == "half":
             c = rng.choice([Fraction(1, 2), Fraction(1), Fraction(1, 2), Fraction(-1, 2), Fraction(3, 2)])
@@ -74,6 +92,8 @@ def gen_program(rng, M, style):
         if n >= 2:
             pool += ENC2_2PI + (ENC2_4PI if style != "periodic" else [])
         name = rng.choice(pool + (["PauliRot", "MultiRZ"] if rng.random() < 0.25 else []))
+        if forced:
+            name = forced[e_i][0]
         if name == "PauliRot":
             q = rng.randint(1, n)
             g = rec(name, rng.sample(range(1, n + 1), q), [0], [rng.randint(1, 3) for _ in range(q)])
@@ -488,11 +508,11 @@ def run(tier, seed):
     ctx = Ctx()
     stats = {"states": 0, "transitions": 0}
     if tier == "quick":
-        run_level(ctx, rng, 4, ["unit", "unit", "int", "int", "half", "half", "periodic", "periodic", "periodic", "periodic", "mix"], 2, stats)
-        run_level(ctx, rng, 5, ["int", "half", "mix"], 0, stats)
+        run_level(ctx, rng, 4, ["unit", "unit", "int", "int", "half", "half", "periodic", "periodic", "periodic", "periodic", "mix", "constfirst", "constfirst"], 2, stats)
+        run_level(ctx, rng, 5, ["int", "half", "mix", "gap", "gap"], 0, stats)
     else:
-        run_level(ctx, rng, 4, ["unit", "int", "half", "periodic", "periodic", "mix"] * 8, 8, stats)
-        run_level(ctx, rng, 5, ["unit", "int", "half", "periodic", "mix"] * 5, 2, stats)
+        run_level(ctx, rng, 4, ["unit", "int", "half", "periodic", "periodic", "mix", "constfirst"] * 8, 8, stats)
+        run_level(ctx, rng, 5, ["unit", "int", "half", "periodic", "mix", "gap", "gap"] * 5, 2, stats)
     c = ctx.counts
     if __import__("os").environ.get("VERIF_DEBUG"):
         for v in ctx.viol:
